@@ -916,6 +916,55 @@ def literal_model_tie(ctx, deep=False, only=None):
                               "literal_model_printer_rows": n_print, "literal_model_mismatches": mism}
 
 
+def structure_grid():
+    heads = ["if a:", "for x in y:", "def f():", "if a:\n  pass\nelse:", "if a:\n  pass\nelif b:", "for x in y:\n  pass\nif c:"]
+    inl = ["pass", "x = 1", "x = 1; y = 2", "x = 1;", "f(x)", "if b: pass", "for z in w: pass", "def g(): pass",
+           "if b: pass\nelse: pass", "if b: x = 1\nelse: x = 2", "if b:\n    pass", "for z in w:\n    pass", "def g():\n    pass",
+           "x = 1; if b: pass", "if b: pass; x = 1", "lambda: 1", "x = lambda: 1"]
+    out = []
+    for h in heads:
+        for b in inl:
+            out.append(h + " " + b + "\n")                                  # on the header's line
+            out.append(h + "\n  " + b.replace("\n", "\n  ") + "\n")            # as an indented block
+            out.append(h + " " + b + "\nz = 3\n")
+            for b2 in inl[:9]:
+                out.append(h + " " + b + "\n  " + b2 + "\n")                  # a block after an inline suite
+    for h1 in heads[:3]:
+        for h2 in heads[:3]:
+            for h3 in heads[:3]:
+                out.append(h1 + " " + h2 + " " + h3 + " pass\n")
+                out.append(h1 + "\n  " + h2 + " " + h3 + " pass\n")
+                out.append(h1 + " " + h2 + "\n    " + h3 + " pass\n")
+    return out
+
+
+def structure_mutate(rng, prog):
+    lines = prog.split("\n")
+    if lines and lines[-1] == "":
+        lines.pop()
+    if len(lines) < 2:
+        return None
+    k = rng.random()
+    ind = lambda l: len(l) - len(l.lstrip(" "))  # noqa: E731
+    if k < 0.5:        # join a header with the line after it
+        cand = [i for i in range(len(lines) - 1) if lines[i].rstrip().endswith(":") and lines[i + 1].strip()]
+        if not cand:
+            return None
+        i = rng.choice(cand)
+        lines[i:i + 2] = [lines[i] + " " + lines[i + 1].lstrip(" ")]
+    elif k < 0.75:     # give a line the indentation of another line
+        i, j = rng.randrange(len(lines)), rng.randrange(len(lines))
+        if ind(lines[i]) == ind(lines[j]) or not lines[i].strip():
+            return None
+        lines[i] = " " * ind(lines[j]) + lines[i].lstrip(" ")
+    elif k < 0.9:      # drop a line
+        del lines[rng.randrange(len(lines))]
+    else:              # swap two adjacent lines
+        i = rng.randrange(len(lines) - 1)
+        lines[i], lines[i + 1] = lines[i + 1], lines[i]
+    return "\n".join(lines) + "\n"
+
+
 def gen_cases(ctx, deep=False):
     rng = ctx.rng
     cases = []
@@ -966,6 +1015,15 @@ def gen_cases(ctx, deep=False):
     for _ in range(ctx.n(1500, 30000)):
         prog = sg.program()
         add(prog, "statements", model=False, d="A" if "/, " in prog else rng.choice(["A", "A", "E"]))
+    # statement STRUCTURE: programs outside the grammar that differ from a valid one only in line structure (a header
+    # joined with the line after it, a line re-indented, dropped or swapped) plus a systematic grid of headers x suites.
+    # Only Python-shared tokens occur, so CPython's accept/reject (and tree, when both accept) is the reference.
+    for prog in structure_grid():
+        add(prog, "structure", model=False, d="A")
+    for _ in range(ctx.n(2500, 30000)):
+        prog = structure_mutate(rng, sg.program())
+        if prog:
+            add(prog, "structure", model=False, d="A")
     for p in corpus_files():
         try:
             txt = open(p, encoding="utf-8").read()
@@ -1103,7 +1161,7 @@ def evaluate(ctx, cases):
                 elif py[0] == "ok" and not r["ok"] and c["kind"] in ("random", "statements"):
                     failures.append({"key": "rejects-shared-grammar", "what": "%r: implementation rejects (%s), CPython parses %s" % (c["src"], r.get("err"), py[1]),
                                      "replay": {"case": c, "impl": r, "cpython": py}})
-                elif py[0] == "reject" and r["ok"] and c["kind"] in ("random", "statements", "params", "defparams"):
+                elif py[0] == "reject" and r["ok"] and c["kind"] in ("random", "statements", "params", "defparams", "structure"):
                     failures.append({"key": "accepts-what-python-rejects", "what": "%r: implementation parses %s, CPython rejects (%s)" % (c["src"], impl_sx, py[1]),
                                      "replay": {"case": c, "impl": r, "cpython": py}})
                 elif py[0] == "ok" and not r["ok"] and c["kind"] in ("params", "defparams"):
